@@ -2,7 +2,7 @@
 from __future__ import annotations
 
 from ..grammars import A, C, EOF_, N, NL, OPT, P, REP, S, T
-from ..harness import mktext, skel
+from ..harness import _tracing, mktext, skel
 from ..runner import Ob
 
 UNI = 0x110000
@@ -98,7 +98,53 @@ def make_parseinfo(spec):
             if wante is not None and pi.endline != wante:
                 return False, 'endline', [pi.endpos, pi.endline, wante]
             count += 1
+        if typed is not None and not _tracing():
+            why = model_nodes(t)
+            if why is not None:
+                return False, why.split(' ')[0], why
         return True, 'ok', [count]
+
+    # the same grammar with every rule typed: model nodes must carry the rule, the offsets of the match and a text/line that agree with them
+    typed = None
+    try:
+        import tatsu
+        from tatsu.objectmodel import Node
+        typed_text = ''.join(f'{n}::{n.title()}Vt: ' + line.split(': ', 1)[1] for n, line in zip(names, gtext.splitlines(True)))
+        typed = tatsu.compile(typed_text, name='PI')
+    except Exception:  # noqa: BLE001
+        typed = None
+
+    def model_nodes(t):
+        try:
+            m = typed.parse(t, asmodel=True, parseinfo=True)
+        except Exception as e:  # noqa: BLE001
+            return 'model-parse-exception ' + type(e).__name__ + ': ' + str(e)[:60]
+        lines = ref_lines(t, is_break_py)
+        todo, seen = [m], []
+        while todo:
+            x = todo.pop()
+            if isinstance(x, Node):
+                if any(x is y for y in seen):
+                    continue
+                seen.append(x)
+                pi = x.parseinfo
+                if pi is None:
+                    return f'node-without-parseinfo {type(x).__name__}'
+                if pi.rule not in names or type(x).__name__ != pi.rule.title() + 'Vt':
+                    return f'node-rule {type(x).__name__} {pi.rule}'
+                if not (0 <= pi.pos <= pi.endpos <= len(t)):
+                    return f'node-offsets {pi.pos} {pi.endpos}'
+                if x.text is not None and x.text != t[pi.pos:pi.endpos]:
+                    return f'node-text {x.text!r} != {t[pi.pos:pi.endpos]!r}'
+                want = line_of(lines, pi.pos, len(t))
+                if want is not None and (x.line != want or pi.line != want):
+                    return f'node-line {x.line} {want}'
+                todo.extend(v for k, v in vars(x).items() if not k.startswith('_') and k not in ('ctx', 'parseinfo'))
+            elif isinstance(x, dict):
+                todo.extend(x.values())
+            elif isinstance(x, (list, tuple)):
+                todo.extend(x)
+        return None
 
     def explain(args):
         t = mktext(args)
